@@ -139,7 +139,7 @@ Definition stat_ok (ob : sobs) (al : list (option (list Z * Z))) : bool :=
   end.
 
 Definition sane (r : sres) : bool :=
-  match r with RPanic | RHang | RSkip => false | _ => true end.
+  match r with RPanic | RHang => false | _ => true end.
 
 Definition judge_step (j : judge) (o : sop) (ob : sobs) : bool * judge :=
   match o with
